@@ -80,6 +80,19 @@ func callMethod(fr *frame, t types.Type, v value, name string) (value, bool) {
 	return call(fr.i, fr, token.NoPos, fn, []value{v}), true
 }
 
+func callMethod2(fr *frame, t types.Type, v value, name string, arg value) (value, bool) {
+	mset := fr.i.prog.MethodSets.MethodSet(t)
+	sel := mset.Lookup(nil, name)
+	if sel == nil {
+		return nil, false
+	}
+	fn := fr.i.prog.MethodValue(sel)
+	if fn == nil {
+		return nil, false
+	}
+	return call(fr.i, fr, token.NoPos, fn, []value{v, arg}), true
+}
+
 func ss2(name string, f func(a, b string) value) {
 	regOpt(name, func(fr *frame, args []value) (value, bool) {
 		a, ok1 := concStr(args[0])
